@@ -13,7 +13,7 @@ RULE = ('one run = one stored file F0 driven through restart cycles: raw F1=save
 ASSUMPTIONS = ['comparison starts at F1 (the library\'s own normal form), never at F0', 'a synthesised file the loader rejects (or faults on while it is generated) is a rejected input, counted, not a violation',
                'BSTriShape-family instances come from API builders: independently drawn vertex descriptors violate cross-field constraints that no writer produces',
                'the schedule/fault dimension is degenerate for this property (restart is the only event); reach comes from the typed generator']
-EXPECTED_PROBES = ['synth_accepted', 'default_needed_second_round']
+EXPECTED_PROBES = ['synth_accepted', 'default_needed_second_round', 'edit_set_texture_path_from_grammar']
 
 
 def builder_inits(rng, n, tier):
@@ -35,6 +35,19 @@ def jobs(tier, seed, pool):
     for v, t, s in synth.population(nseeds, seed0=seed):
         out.append({'plan': {'property': PROP, 'profile': 'roundtrip', 'init': synth.synth_init(v, t, s, k=3), 'timeout_s': 8},
                     'meta': {'kind': 'synth', 'cell': (v, t)}})
+    # texture paths from a grammar (prefixes, nested "textures"/"data" folders, separators, blanks) set on samples and built models
+    tex_names = [n for n, sz in inputs.sample_names('in') if sz < 70000]
+    for i in range(400 if tier == 'quick' else 8000):
+        r = Rng(seed, PROP, 'tex', i)
+        if r.chance(0.6):
+            init = {'sample': r.choice(tex_names)}
+        else:
+            ver = r.choice(['OB', 'FO3', 'SK', 'SSE', 'FO4', 'FO76'])
+            init = {'builder': {'version': ver, 'salt': r.below(1 << 30), 'nodes': r.below(2), 'shapes': [hist.shape_spec(r, ver, 'quick', name='s0')]}}
+            if init['builder']['shapes'][0]['nv'] > 300:
+                init['builder']['shapes'][0].update({'nv': 12, 'nt': 10})
+        init['edits'] = [{'op': 'SetTexturePath', 'shape': r.below(4), 'salt': r.below(1 << 30)} for _ in range(r.range(1, 3))]
+        out.append({'plan': {'property': PROP, 'profile': 'roundtrip', 'init': init, 'timeout_s': 40}, 'meta': {'kind': 'texture-paths'}})
     rng = Rng(seed, PROP, 'builders')
     for init in builder_inits(rng, 400 if tier == 'quick' else 6000, tier):
         out.append({'plan': {'property': PROP, 'profile': 'roundtrip', 'init': init, 'timeout_s': 8}, 'meta': {'kind': 'builder'}})
